@@ -74,6 +74,14 @@ def schema_validator(resource, iterator,
             except CastError as e:
                 if not on_error(resource['name'], row, i, e, field):
                     okay = False
+            except (ArithmeticError, TypeError, ValueError) as e:
+                # some casters let the error of the underlying conversion escape:
+                # the value is uncastable all the same
+                cast_error = CastError('Field "{}" can\'t cast value "{}" for type "{}": {!r}'.format(
+                    field.name, row.get(field.name), field.type, e))
+                cast_error.__cause__ = e
+                if not on_error(resource['name'], row, i, cast_error, field):
+                    okay = False
         if okay:
             yield row
 
